@@ -161,6 +161,14 @@ def build_harness(cfg=None, features=None):
             del e[k]
     e.update(env)
     cmd = ["cargo", "build", "--release", "--offline"]
+    if os.environ.get("HBS_VERIF_COV"):
+        # line-coverage measurement of the library under the correspondence inputs (tools/coverage.py):
+        # separate target directory, nightly toolchain (it ships llvm-profdata / llvm-cov), instrumented build
+        tdir = tdir + "-cov"
+        e["CARGO_TARGET_DIR"] = tdir
+        e["RUSTFLAGS"] = "--cfg hbs_lms_verif -A unexpected_cfgs -C instrument-coverage"
+        e["LLVM_PROFILE_FILE"] = os.path.join(VERIF, "target", "cov-prof", "build-%p.profraw")
+        cmd = ["cargo", "+nightly", "build", "--release", "--offline"]
     if features:
         cmd += ["--features", ",".join(features)]
     p = subprocess.run(cmd, cwd=HARNESS, env=e, stdout=subprocess.PIPE, stderr=subprocess.STDOUT, text=True)
